@@ -8,6 +8,7 @@ import (
 	"go/ast"
 	"go/token"
 	"go/types"
+	"os"
 	"sort"
 	"strings"
 )
@@ -26,6 +27,77 @@ func (fr *frame) enterLoop() string {
 	return strings.Join(parts, ".")
 }
 func (fr *frame) leaveLoop() { fr.loopOrd = fr.loopOrd[:len(fr.loopOrd)-1] }
+
+// staticLoopOrd: the ordinal of a loop is its position in the source of the
+// function declaration that lexically contains it ("1", "2", "2.1" for the
+// first loop nested in the second, ...), counting loops inside function
+// literals too. The owner is the frame of that declaration, which carries the
+// loop's contract - a closure body inlined into a callee keeps the ordinals
+// and the loop contracts of the function it was written in.
+func (vc *VC) staticLoopOrd(loop ast.Node) (string, *frame) {
+	pos := loop.Pos()
+	for i := len(vc.frames) - 1; i >= 0; i-- {
+		fr := vc.frames[i]
+		if fr.fi == nil || fr.fi.Decl == nil || pos < fr.fi.Decl.Pos() || pos > fr.fi.Decl.End() {
+			continue
+		}
+		vc.w.ordMu.Lock()
+		m := vc.w.loopOrds[fr.fi.Decl]
+		if m == nil {
+			m = map[token.Pos]string{}
+			var walk func(n ast.Node, prefix string)
+			walk = func(n ast.Node, prefix string) {
+				k := 0
+				ast.Inspect(n, func(c ast.Node) bool {
+					if c == nil || c == n {
+						return true
+					}
+					var body *ast.BlockStmt
+					switch l := c.(type) {
+					case *ast.ForStmt:
+						body = l.Body
+					case *ast.RangeStmt:
+						body = l.Body
+					default:
+						return true
+					}
+					k++
+					ord := prefix + fmt.Sprint(k)
+					m[c.Pos()] = ord
+					walk(body, ord+".")
+					return false
+				})
+			}
+			walk(fr.fi.Decl, "")
+			if vc.w.loopOrds == nil {
+				vc.w.loopOrds = map[*ast.FuncDecl]map[token.Pos]string{}
+			}
+			vc.w.loopOrds[fr.fi.Decl] = m
+		}
+		ord := m[pos]
+		vc.w.ordMu.Unlock()
+		if os.Getenv("GOVC_TRACE") != "" {
+			fmt.Fprintf(os.Stderr, "loop at %s: ord %q in %s (fc=%v)\n", vc.w.fset.Position(pos), ord, fr.name, fr.fc != nil)
+		}
+		if ord != "" {
+			if fr.fc == nil {
+				// a closure frame: the contract is on the enclosing declaration
+				for j := i - 1; j >= 0; j-- {
+					if vc.frames[j].fi == fr.fi && vc.frames[j].fc != nil {
+						return ord, vc.frames[j]
+					}
+				}
+			}
+			return ord, fr
+		}
+	}
+	return vc.cur().enterLoopDyn(), vc.cur()
+}
+
+func (fr *frame) enterLoopDyn() string {
+	fr.dynLoops++
+	return fmt.Sprintf("dyn%d", fr.dynLoops)
+}
 
 // modifiedVars: variables that may change in the loop (syntactic over-approximation).
 func (vc *VC) modifiedVars(nodes ...ast.Node) []types.Object {
@@ -217,8 +289,7 @@ type loopRun struct {
 	typeInvs []tiVar
 }
 
-func (vc *VC) loopSpec(ord string) *LoopSpec {
-	fr := vc.cur()
+func (vc *VC) loopSpec(ord string, fr *frame) *LoopSpec {
 	if fr.fc != nil {
 		if ls := fr.fc.Loops[ord]; ls != nil {
 			return ls
@@ -408,15 +479,14 @@ func (vc *VC) checkDecreases(lr *loopRun, before []Term, st *State) {
 
 func (vc *VC) execFor(x *ast.ForStmt, st *State, label string) *State {
 	fr := vc.cur()
-	ord := fr.enterLoop()
-	defer fr.leaveLoop()
+	ord, ofr := vc.staticLoopOrd(x)
 	if x.Init != nil {
 		st = vc.execStmt(x.Init, st)
 		if st == nil {
 			return nil
 		}
 	}
-	lr := &loopRun{ord: ord, spec: vc.loopSpec(ord), pos: x.Pos(), ghost: map[string]Value{}, entry: st.clone()}
+	lr := &loopRun{ord: ord, spec: vc.loopSpec(ord, ofr), pos: x.Pos(), ghost: map[string]Value{}, entry: st.clone()}
 	mods := vc.modifiedVars(x.Body, x.Post, x.Cond)
 	vc.loopDirect = vc.directlyAssigned(x.Body, x.Post)
 	lr.typeInvs = vc.typeInvVars(mods)
@@ -453,9 +523,8 @@ func (vc *VC) execFor(x *ast.ForStmt, st *State, label string) *State {
 
 func (vc *VC) execRange(x *ast.RangeStmt, st *State, label string) *State {
 	fr := vc.cur()
-	ord := fr.enterLoop()
-	defer fr.leaveLoop()
-	lr := &loopRun{ord: ord, spec: vc.loopSpec(ord), pos: x.Pos(), ghost: map[string]Value{}, entry: st.clone()}
+	ord, ofr := vc.staticLoopOrd(x)
+	lr := &loopRun{ord: ord, spec: vc.loopSpec(ord, ofr), pos: x.Pos(), ghost: map[string]Value{}, entry: st.clone()}
 	xt := vc.typeOf(x.X)
 	// the range expression is evaluated once
 	var coll Value
